@@ -290,8 +290,10 @@ steps_write(struct step_file *sf, struct arena *scratch)
 	}
 
 out:
-	if (fh != NULL)
-		fclose(fh);
+	if (fh != NULL && fclose(fh) == EOF && !error) {
+		warn("fclose: %s", sf->path);
+		error = 1;
+	}
 	buffer_free(bf);
 	return error;
 }
